@@ -221,15 +221,7 @@ impl Constant {
             Constant::String(s) => RcDoc::text("string")
                 .append(RcDoc::line())
                 .append(RcDoc::text("\""))
-                .append(RcDoc::text(
-                    String::from_utf8(
-                        s.as_bytes()
-                            .iter()
-                            .flat_map(|c| escape_default(*c).collect::<Vec<u8>>())
-                            .collect(),
-                    )
-                    .unwrap(),
-                ))
+                .append(RcDoc::text(escape_string(s)))
                 .append(RcDoc::text("\"")),
             Constant::Unit => RcDoc::text("unit")
                 .append(RcDoc::line())
@@ -283,15 +275,7 @@ impl Constant {
             Constant::Integer(i) => RcDoc::as_string(i),
             Constant::ByteString(bs) => RcDoc::text("#").append(RcDoc::text(hex::encode(bs))),
             Constant::String(s) => RcDoc::text("\"")
-                .append(RcDoc::text(
-                    String::from_utf8(
-                        s.as_bytes()
-                            .iter()
-                            .flat_map(|c| escape_default(*c).collect::<Vec<u8>>())
-                            .collect(),
-                    )
-                    .unwrap(),
-                ))
+                .append(RcDoc::text(escape_string(s)))
                 .append(RcDoc::text("\"")),
             Constant::Unit => RcDoc::text("()"),
             Constant::Bool(b) => RcDoc::text(if *b { "True" } else { "False" }),
@@ -417,4 +401,18 @@ mod tests {
             }
         )
     }
+}
+
+/// Escapes a string constant for printing. ASCII characters are escaped as before; anything else is
+/// printed as is, which is how the parser reads it back (an escaped byte denotes a single character).
+fn escape_string(s: &str) -> String {
+    s.chars()
+        .flat_map(|c| {
+            if c.is_ascii() {
+                escape_default(c as u8).map(char::from).collect::<Vec<char>>()
+            } else {
+                vec![c]
+            }
+        })
+        .collect()
 }
